@@ -55,6 +55,9 @@ pub fn generate_group(run_seed: u64, g: usize) -> GroupSpec {
             let mut c2 = r.fork(i as u64);
             let mut s2 = r.fork(100 + i as u64);
             m.sched = SchedSpec::draw(&mut c2, &mut s2);
+            // the simulated rayon pool (splitter discovery, final partial packs) is "threads" too;
+            // own stream, so the other dimensions of existing run indices are unchanged
+            m.cfg.rayon_pool = Rng::new(run_seed ^ 0x5241_594F ^ (i as u64) << 32).below(7) as u32;
         }
         members.push(m);
     }
@@ -265,7 +268,7 @@ impl Prop for C04 {
     fn assumptions(&self) -> Vec<String> {
         vec![
             "parameters held fixed inside a group: k, segment size, min match, pack cardinality, compression level, fallback fraction, input mode, RAGC_SYNC_PER_SAMPLE, metadata zstd level".into(),
-            "rayon inside finalize/splitter discovery stays real (order-preserving collects); RAYON_NUM_THREADS=2".into(),
+            "rayon's parallel maps (splitter discovery, final partial packs) run on 1..8 shuttle tasks of the harness's rayon shim (varied inside a group); rdst's radix sort keeps the real rayon pool (RAYON_NUM_THREADS=2) on plain integers".into(),
             "sequentially consistent executions only (shuttle)".into(),
         ]
     }
